@@ -64,6 +64,19 @@ def main():
     A = tdgl.Parameter(vec, B=cfg.get("B", 0.5))
     if cfg.get("timedep"):
         A = tdgl.Parameter(ramp, rate=8.0, time_dependent=True) * A
+    if cfg.get("tabulated"):
+        class Tabulated:
+            """returns the stored table (the same ndarray object at every call)"""
+
+            def __init__(self):
+                self.table = None
+
+            def __call__(self, x, y, z):
+                if self.table is None or len(self.table) != len(x):
+                    self.table = np.asarray(vec(x, y, z, B=cfg.get("B", 0.5)), dtype=float).copy()
+                return self.table
+
+        A = Tabulated()
     cur = None
     if cfg.get("timedep_current"):
         cur = lambda t: {"source": 2.0 + np.sin(3 * t), "drain": -(2.0 + np.sin(3 * t))}
